@@ -595,6 +595,9 @@ class C20(Prop):
             c_ = {"k": "load", "default": dtext, "user": utext, "n": 3, "oneline": one}
             if utext is not None and rng.random() < 0.1:
                 c_["symlink"] = True
+            if i % 6 == 1:
+                # application names are free text: reverse-DNS style, version suffixes, a trailing dot
+                c_["app"] = ["net.example.aw-watcher", "aw-watcher-demo.v2", "aw.verif.c20.toml", "aw-verif-c20."][(i // 6) % 4]
             out.append(("random-load", c_))
         return out
 
@@ -627,20 +630,21 @@ class C20(Prop):
             assert not real.startswith(bad + os.sep), real
         old = os.environ.get("XDG_CONFIG_HOME")
         os.environ["XDG_CONFIG_HOME"] = tmp
+        app = case.get("app", APP)
         try:
-            cdir = dirs.get_config_dir(APP)
+            cdir = dirs.get_config_dir(app)
             if not os.path.realpath(cdir).startswith(real + os.sep):
                 # the directory in force is not the one the library uses: nothing is run there (it is not ours to write
                 # to); the user's file in the directory in force would be ignored - reported by the oracle
                 d_, u_ = _parses(case)
                 return {"wrong_dir": [cdir, tmp], "loads": [], "files": [None], "only_file": [], "d": d_, "u": u_, "file_tree": None}
-            path = os.path.join(cdir, APP + ".toml")
+            path = os.path.join(cdir, app + ".toml")
             if case["user"] is not None:
                 target = path
                 if case.get("symlink"):
                     # the user's file is a symbolic link into a directory of dotfiles
                     os.makedirs(os.path.join(tmp, "dotfiles"), exist_ok=True)
-                    target = os.path.join(tmp, "dotfiles", APP + ".toml")
+                    target = os.path.join(tmp, "dotfiles", app + ".toml")
                     os.symlink(target, path)
                 with open(target, "wb") as f:
                     f.write(case["user"].encode("utf-8"))
@@ -655,12 +659,12 @@ class C20(Prop):
             files = [snap()]
             for _ in range(case["n"]):
                 try:
-                    r = load_config_toml(APP, case["default"])
+                    r = load_config_toml(app, case["default"])
                     loads.append(tree_of(r))
                 except Exception as e:  # tomlkit's errors are ValueError subclasses
                     loads.append(["err", "TomlError" if _is_toml_error(e) else err_kind(e)])
                 files.append(snap())
-            out = {"loads": loads, "files": files, "only_file": sorted(os.listdir(cdir))}
+            out = {"loads": loads, "files": files, "only_file": sorted(APP + n[len(app):] if n.startswith(app) else n for n in os.listdir(cdir))}
             out["d"], out["u"] = _parses(case)
             # tomlkit on the file the real code wrote (the model's parser on first-run files is compared with it)
             out["file_tree"] = _parse_tree(files[-1]) if case["user"] is None and files[-1] is not None else None
